@@ -279,22 +279,30 @@ func c19Menu(w *wworld.World) []string {
 func c19Specs(quick bool) []*wSpec {
 	two := wworld.Config{FeeA: 100, Wallets: []wworld.WalletCfg{{Default: "a"}, {Default: "a"}}}
 	if quick {
-		return []*wSpec{{Prop: "C19", Name: "C19-2w1m-fee100-q", Cfg: two, Init: []string{"mint|0|16"}, Menu: c19Menu, Probe: c19Probe(false), Depth: 2, NoInvariants: true}}
+		return []*wSpec{
+			{Prop: "C19", Name: "C19-2w1m-fee100-q", Cfg: two, Init: []string{"mint|0|16"}, Menu: c19Menu, Probe: c19Probe(false), Depth: 2, NoInvariants: true},
+			// constructed content (a single 16-sat proof, not derived from the seed): every send needs a swap
+			{Prop: "C19", Name: "C19-bigcoin-q", Cfg: two, Init: []string{"give|0|16"}, Menu: c19Menu, Probe: c19Probe(false), Depth: 2, NoInvariants: true},
+			{Prop: "C19", Name: "C19-long-q", Cfg: two, Init: c19LongN(11), Menu: func(*wworld.World) []string { return nil }, Probe: c19Probe(false), Depth: 0, NoInvariants: true},
+		}
 	}
 	three := wworld.Config{FeeA: 0, FeeB: 0, TwoMints: true, Wallets: []wworld.WalletCfg{{Default: "a"}, {Default: "a"}, {Default: "b"}}}
 	return []*wSpec{
 		{Prop: "C19", Name: "C19-2w1m-fee100", Cfg: two, Init: []string{"mint|0|16"}, Menu: c19Menu, Probe: c19Probe(true), Depth: 3, NoInvariants: true},
 		{Prop: "C19", Name: "C19-3w2m-fee0", Cfg: three, Init: []string{"mint|0|16"}, Menu: c19Menu, Probe: c19Probe(false), Depth: 3, NoInvariants: true},
+		{Prop: "C19", Name: "C19-bigcoin", Cfg: two, Init: []string{"give|0|16,8"}, Menu: c19Menu, Probe: c19Probe(false), Depth: 3, NoInvariants: true},
 		{Prop: "C19", Name: "C19-long", Cfg: two, Init: c19Long(), Menu: func(*wworld.World) []string { return nil }, Probe: c19Probe(true), Depth: 0, NoInvariants: true},
 	}
 }
 
 // c19Long: more than 300 outputs on one keyset, a rotation in the middle, restore -> continue -> restore.
-func c19Long() []string {
+func c19Long() []string { return c19LongN(20) }
+
+func c19LongN(n int) []string {
 	var ops []string
-	for i := 0; i < 20; i++ {
+	for i := 0; i < n; i++ {
 		ops = append(ops, "mint|0|32767") // 15 outputs each
-		if i == 9 {
+		if i == n/2-1 {
 			ops = append(ops, "rotate|a|100")
 		}
 		if i%4 == 3 {
